@@ -333,7 +333,7 @@ theorem parseLoop_succ_cons (inner f : Nat) (t : Tok S) (r : List (Tok S)) :
           | other => other
         | .err e => .err e
         | .fuel => .fuel := by
-  simp only [parseLoop]
+  rw [parseLoop]; rfl
 
 theorem parseLoop_nil (inner outer : Nat) : parseLoop inner outer ([] : List (Tok S)) = .ok [] := by
   cases outer <;> rfl
@@ -413,5 +413,494 @@ theorem parseLoop_mono {inner inner' outer outer' : Nat} {ts : List (Tok S)}
   have h1 := parseLoop_mono_inner hi outer ts h
   rw [← h1] at h ⊢
   exact parseLoop_mono_outer h ho
+
+
+/-! ## Fuel adequacy: rank + 13 per remaining token -/
+
+/-- an explicit linear amount of fuel never runs out — all 22 functions at one fuel value -/
+structure AdequateAt (S : Type) (f : Nat) : Prop where
+  expression : ∀ (ts : List (Tok S)), 10 + 13 * ts.length ≤ f → pExpression f ts ≠ .fuel
+  term : ∀ (ts : List (Tok S)), 9 + 13 * ts.length ≤ f → pTerm f ts ≠ .fuel
+  termLoop : ∀ acc (ts : List (Tok S)), 1 + 13 * ts.length ≤ f → pTermLoop f acc ts ≠ .fuel
+  factor : ∀ (ts : List (Tok S)), 8 + 13 * ts.length ≤ f → pFactor f ts ≠ .fuel
+  factorLoop : ∀ acc (ts : List (Tok S)), 1 + 13 * ts.length ≤ f → pFactorLoop f acc ts ≠ .fuel
+  dot : ∀ (ts : List (Tok S)), 7 + 13 * ts.length ≤ f → pDot f ts ≠ .fuel
+  dotLoop : ∀ acc (ts : List (Tok S)), 1 + 13 * ts.length ≤ f → pDotLoop f acc ts ≠ .fuel
+  cross : ∀ (ts : List (Tok S)), 6 + 13 * ts.length ≤ f → pCross f ts ≠ .fuel
+  crossLoop : ∀ acc (ts : List (Tok S)), 1 + 13 * ts.length ≤ f → pCrossLoop f acc ts ≠ .fuel
+  exponent : ∀ (ts : List (Tok S)), 5 + 13 * ts.length ≤ f → pExponent f ts ≠ .fuel
+  exponentLoop : ∀ acc (ts : List (Tok S)), 1 + 13 * ts.length ≤ f → pExponentLoop f acc ts ≠ .fuel
+  unary : ∀ (ts : List (Tok S)), 4 + 13 * ts.length ≤ f → pUnary f ts ≠ .fuel
+  factorial : ∀ (ts : List (Tok S)), 3 + 13 * ts.length ≤ f → pFactorial f ts ≠ .fuel
+  factorialLoop : ∀ acc (ts : List (Tok S)), 1 + 13 * ts.length ≤ f → pFactorialLoop f acc ts ≠ .fuel
+  call : ∀ (ts : List (Tok S)), 2 + 13 * ts.length ≤ f → pCall f ts ≠ .fuel
+  callLoop : ∀ acc (ts : List (Tok S)), 1 + 13 * ts.length ≤ f → pCallLoop f acc ts ≠ .fuel
+  args : ∀ (ts : List (Tok S)), 12 + 13 * ts.length ≤ f → pArgs f ts ≠ .fuel
+  argsLoop : ∀ (ts : List (Tok S)), 11 + 13 * ts.length ≤ f → pArgsLoop f ts ≠ .fuel
+  rows : ∀ br prev idx (ts : List (Tok S)), 13 + 13 * ts.length ≤ f → pRows f br prev idx ts ≠ .fuel
+  rowsNext : ∀ br prev idx (ts : List (Tok S)),
+    1 + 13 * ts.length ≤ f → pRowsNext f br prev idx ts ≠ .fuel
+  primary : ∀ (ts : List (Tok S)), 1 + 13 * ts.length ≤ f → pPrimary f ts ≠ .fuel
+  group : ∀ o k (ts : List (Tok S)), 11 + 13 * ts.length ≤ f → pGroup f o k ts ≠ .fuel
+
+set_option hygiene false in
+/-- `level = sub-level, then loop` -/
+local macro "lvl_adq " q:term ", " ih1:term ", " sfx:term ", " ih2:term : tactic => `(tactic| (
+  cases hq : $q with
+  | fuel => exact absurd hq ($ih1 _ (by omega))
+  | err e1 => simp
+  | ok e1 r1 =>
+    have hlt := (($sfx) _ _ _ hq).length_lt
+    exact $ih2 _ _ (by omega)))
+
+set_option hygiene false in
+/-- `loop: operator, operand, loop` -/
+local macro "loop_adq " q:term ", " ih1:term ", " sfx:term ", " ih2:term : tactic => `(tactic| (
+  cases ts with
+  | nil => simp
+  | cons t r =>
+    rw [List.length_cons] at hb
+    simp only
+    split
+    · cases hq : $q with
+      | fuel => exact absurd hq ($ih1 _ (by omega))
+      | err e1 => simp
+      | ok e1 r1 =>
+        have hlt := (($sfx) _ _ _ hq).length_lt
+        exact $ih2 _ _ (by omega)
+    · simp))
+
+theorem adequateAt : ∀ f, AdequateAt S f := by
+  intro f
+  induction f with
+  | zero => constructor <;> intros <;> rename_i h <;> omega
+  | succ f ih =>
+    have sf := suffixAt (S := S) f
+    constructor
+    case expression =>
+      intro ts hb; simp only [pExpression]
+      cases hq : pTerm f ts with
+      | fuel => exact absurd hq (ih.term _ (by omega))
+      | err e1 => simp
+      | ok e1 r1 => simp only; (repeat' split) <;> simp
+    case term =>
+      intro ts hb; simp only [pTerm]; lvl_adq pFactor f ts, ih.factor, sf.factor, ih.termLoop
+    case factor =>
+      intro ts hb; simp only [pFactor]; lvl_adq pDot f ts, ih.dot, sf.dot, ih.factorLoop
+    case dot =>
+      intro ts hb; simp only [pDot]; lvl_adq pCross f ts, ih.cross, sf.cross, ih.dotLoop
+    case cross =>
+      intro ts hb; simp only [pCross]; lvl_adq pExponent f ts, ih.exponent, sf.exponent, ih.crossLoop
+    case exponent =>
+      intro ts hb; simp only [pExponent]; lvl_adq pUnary f ts, ih.unary, sf.unary, ih.exponentLoop
+    case factorial =>
+      intro ts hb; simp only [pFactorial]; lvl_adq pCall f ts, ih.call, sf.call, ih.factorialLoop
+    case call =>
+      intro ts hb; simp only [pCall]; lvl_adq pPrimary f ts, ih.primary, sf.primary, ih.callLoop
+    case termLoop =>
+      intro acc ts hb; simp only [pTermLoop]
+      loop_adq pFactor f r, ih.factor, sf.factor, ih.termLoop
+    case factorLoop =>
+      intro acc ts hb; simp only [pFactorLoop]
+      loop_adq pDot f r, ih.dot, sf.dot, ih.factorLoop
+    case dotLoop =>
+      intro acc ts hb; simp only [pDotLoop]
+      loop_adq pCross f r, ih.cross, sf.cross, ih.dotLoop
+    case crossLoop =>
+      intro acc ts hb; simp only [pCrossLoop]
+      loop_adq pExponent f r, ih.exponent, sf.exponent, ih.crossLoop
+    case exponentLoop =>
+      intro acc ts hb; simp only [pExponentLoop]
+      loop_adq pExponent f r, ih.exponent, sf.exponent, ih.exponentLoop
+    case unary =>
+      intro ts hb; unfold pUnary
+      cases ts with
+      | nil => exact ih.factorial _ (by omega)
+      | cons t r =>
+        rw [List.length_cons] at hb
+        simp only
+        split
+        · cases hq : pUnary f r with
+          | fuel => exact absurd hq (ih.unary _ (by omega))
+          | err e1 => simp
+          | ok e1 r1 => simp
+        · exact ih.factorial _ (by rw [List.length_cons]; omega)
+    case factorialLoop =>
+      intro acc ts hb; simp only [pFactorialLoop]
+      cases ts with
+      | nil => simp
+      | cons t r =>
+        rw [List.length_cons] at hb
+        simp only
+        split
+        · exact ih.factorialLoop _ _ (by omega)
+        · simp
+    case callLoop =>
+      intro acc ts hb; simp only [pCallLoop]
+      cases ts with
+      | nil => simp
+      | cons t r =>
+        rw [List.length_cons] at hb
+        simp only
+        split
+        · cases hq : pArgs f r with
+          | fuel => exact absurd hq (ih.args _ (by omega))
+          | err e1 => simp
+          | ok e1 r1 =>
+            have hle := (sf.args _ _ _ hq).length_le
+            simp only
+            cases hc2 : consume .rparen r1 with
+            | fuel => exact absurd hc2 (consume_ne_fuel _ _)
+            | err e2 => simp
+            | ok t2 r2 =>
+              obtain ⟨rfl, _⟩ := consume_ok hc2
+              rw [List.length_cons] at hle
+              exact ih.callLoop _ _ (by omega)
+        · simp
+    case args =>
+      intro ts hb; simp only [pArgs]
+      split
+      · simp
+      · exact ih.argsLoop _ (by omega)
+    case argsLoop =>
+      intro ts hb; unfold pArgsLoop
+      cases hq : pExpression f ts with
+      | fuel => exact absurd hq (ih.expression _ (by omega))
+      | err e1 => simp
+      | ok e1 r1 =>
+        have hlt := (sf.expression _ _ _ hq).length_lt
+        simp only
+        cases r1 with
+        | nil => simp
+        | cons t r' =>
+          rw [List.length_cons] at hlt
+          simp only
+          split
+          · cases hq2 : pArgsLoop f r' with
+            | fuel => exact absurd hq2 (ih.argsLoop _ (by omega))
+            | err e2 => simp
+            | ok es r2 => simp
+          · simp
+    case rows =>
+      intro br prev idx ts hb; simp only [pRows]
+      cases hq : pArgs f ts with
+      | fuel => exact absurd hq (ih.args _ (by omega))
+      | err e1 => simp
+      | ok row r1 =>
+        have hle := (sf.args _ _ _ hq).length_le
+        simp only
+        split
+        · split
+          · simp
+          · exact ih.rowsNext _ _ _ _ (by omega)
+        · exact ih.rowsNext _ _ _ _ (by omega)
+    case rowsNext =>
+      intro br prev idx ts hb; simp only [pRowsNext]
+      cases ts with
+      | nil => simp
+      | cons t r =>
+        rw [List.length_cons] at hb
+        simp only
+        split
+        · exact ih.rows _ _ _ _ (by omega)
+        · simp
+    case primary =>
+      intro ts hb; simp only [pPrimary]
+      cases ts with
+      | nil => simp
+      | cons t r =>
+        rw [List.length_cons] at hb
+        simp only
+        cases hk : t.kind <;> simp only
+        case number z => (repeat' split) <;> simp
+        case lparen => exact ih.group _ _ _ (by omega)
+        case pipe => exact ih.group _ _ _ (by omega)
+        case lceil => exact ih.group _ _ _ (by omega)
+        case lfloor => exact ih.group _ _ _ (by omega)
+        case lbracket =>
+          cases hq : pRows f t [] 0 r with
+          | fuel => exact absurd hq (ih.rows _ _ _ _ (by omega))
+          | err e1 => simp
+          | ok rows r1 =>
+            simp only
+            cases hc2 : consume .rbracket r1 with
+            | fuel => exact absurd hc2 (consume_ne_fuel _ _)
+            | err e2 => simp
+            | ok t2 r2 => simp
+        all_goals simp
+    case group =>
+      intro o k ts hb; simp only [pGroup]
+      cases hq : pExpression f ts with
+      | fuel => exact absurd hq (ih.expression _ (by omega))
+      | err e1 => simp
+      | ok e1 r1 =>
+        simp only
+        cases hc2 : consume (groupClose k) r1 with
+        | fuel => exact absurd hc2 (consume_ne_fuel _ _)
+        | err e2 => simp
+        | ok t2 r2 => simp
+
+
+theorem pExpression_adequate {f : Nat} {ts : List (Tok S)} (hb : 10 + 13 * ts.length ≤ f) :
+    pExpression f ts ≠ .fuel := (adequateAt f).expression ts hb
+
+theorem pExpression_shorter {f : Nat} {ts : List (Tok S)} {e r} (h : pExpression f ts = .ok e r) :
+    Shorter ts r := (suffixAt f).expression ts e r h
+
+theorem consumeDelim_shorter {ts : List (Tok S)} {t r} (h : consumeDelim ts = .ok t r) :
+    Shorter ts r := by
+  obtain ⟨rfl, _⟩ := consumeDelim_ok h
+  exact ⟨[_], rfl, by simp⟩
+
+/-! ## Statements -/
+
+theorem pDelete_adequate {f : Nat} {del : Tok S} {ts : List (Tok S)}
+    (hb : 10 + 13 * ts.length ≤ f) : pDelete f del ts ≠ .fuel := by
+  unfold pDelete
+  cases hq : pExpression f ts with
+  | fuel => exact absurd hq (pExpression_adequate hb)
+  | err e1 => simp
+  | ok e r =>
+    simp only
+    cases e with
+    | ident name =>
+      simp only
+      cases hc : consumeDelim r with
+      | fuel => exact absurd hc (consumeDelim_ne_fuel _)
+      | err e2 => simp
+      | ok t2 r2 => simp
+    | call callee paren args =>
+      simp only
+      cases hc : consumeDelim r with
+      | fuel => exact absurd hc (consumeDelim_ne_fuel _)
+      | err e2 => simp
+      | ok t2 r2 => simp only; split <;> simp
+    | _ => simp
+
+theorem pStatementExpr_adequate {f : Nat} {ts : List (Tok S)}
+    (hb : 10 + 13 * ts.length ≤ f) : pStatement.pStatementExpr f ts ≠ .fuel := by
+  unfold pStatement.pStatementExpr
+  cases hq : pExpression f ts with
+  | fuel => exact absurd hq (pExpression_adequate hb)
+  | err e1 => simp
+  | ok e r =>
+    have hlt := (pExpression_shorter hq).length_lt
+    simp only
+    have hex : (match consumeDelim r with
+        | .ok _ r' => PRes.ok (Stmt.expr e) r'
+        | .err e => .err e
+        | .fuel => .fuel) ≠ .fuel := by
+      cases hc : consumeDelim r with
+      | fuel => exact absurd hc (consumeDelim_ne_fuel _)
+      | err e2 => simp
+      | ok t2 r2 => simp
+    cases e with
+    | ident name =>
+      simp only
+      cases r with
+      | nil => exact hex
+      | cons eq r1 =>
+        rw [List.length_cons] at hlt
+        simp only
+        split
+        · cases hq2 : pExpression f r1 with
+          | fuel => exact absurd hq2 (pExpression_adequate (by omega))
+          | err e2 => simp
+          | ok e2 r2 =>
+            simp only
+            cases hc : consumeDelim r2 with
+            | fuel => exact absurd hc (consumeDelim_ne_fuel _)
+            | err e3 => simp
+            | ok t3 r3 => simp
+        · exact hex
+    | call callee paren args =>
+      simp only
+      cases r with
+      | nil => exact hex
+      | cons eq r1 =>
+        rw [List.length_cons] at hlt
+        simp only
+        split
+        · cases hq2 : pExpression f r1 with
+          | fuel => exact absurd hq2 (pExpression_adequate (by omega))
+          | err e2 => simp
+          | ok e2 r2 =>
+            simp only
+            cases hc : consumeDelim r2 with
+            | fuel => exact absurd hc (consumeDelim_ne_fuel _)
+            | err e3 => simp
+            | ok t3 r3 => simp only; split <;> simp
+        · exact hex
+    | _ => exact hex
+
+/-- `10 + 13 * (number of tokens)` units of fuel are enough for one statement -/
+theorem pStatement_adequate {f : Nat} {ts : List (Tok S)}
+    (hb : 10 + 13 * ts.length ≤ f) : pStatement f ts ≠ .fuel := by
+  unfold pStatement
+  cases ts with
+  | nil => exact pStatementExpr_adequate hb
+  | cons t r =>
+    simp only
+    split
+    · exact pDelete_adequate (by rw [List.length_cons] at hb; omega)
+    · split
+      · cases hc : consumeDelim r with
+        | fuel => exact absurd hc (consumeDelim_ne_fuel _)
+        | err e2 => simp
+        | ok t2 r2 => simp
+      · exact pStatementExpr_adequate hb
+
+theorem pDelete_shorter {f : Nat} {del : Tok S} {ts : List (Tok S)} {s r}
+    (h : pDelete f del ts = .ok s r) : Shorter ts r := by
+  unfold pDelete at h
+  split at h
+  · rename_i e1 r1 h1
+    have s1 := pExpression_shorter h1
+    split at h
+    · split at h
+      · rename_i t2 r2 h2
+        cases h
+        exact s1.trans_suffix (consumeDelim_shorter h2).suffix
+      · cases h
+      · cases h
+    · split at h
+      · rename_i t2 r2 h2
+        split at h
+        · cases h
+          exact s1.trans_suffix (consumeDelim_shorter h2).suffix
+        · cases h
+      · cases h
+      · cases h
+    · cases h
+  · cases h
+  · cases h
+
+theorem pStatementExpr_shorter {f : Nat} {ts : List (Tok S)} {s r}
+    (h : pStatement.pStatementExpr f ts = .ok s r) : Shorter ts r := by
+  unfold pStatement.pStatementExpr at h
+  split at h
+  · rename_i e1 r1 h1
+    have s1 := pExpression_shorter h1
+    simp only at h
+    have hex : ∀ {s r}, (match consumeDelim r1 with
+        | .ok _ r' => PRes.ok (Stmt.expr e1) r'
+        | .err e => .err e
+        | .fuel => .fuel) = .ok s r → Shorter ts r := by
+      intro s r hx
+      split at hx
+      · rename_i t2 r2 h2
+        cases hx
+        exact s1.trans_suffix (consumeDelim_shorter h2).suffix
+      · cases hx
+      · cases hx
+    split at h
+    · split at h
+      · split at h
+        · split at h
+          · rename_i e2 r2 h2
+            split at h
+            · rename_i t3 r3 h3
+              cases h
+              exact (s1.trans_suffix (Suffix.cons _ (pExpression_shorter h2).suffix).suffix).trans_suffix
+                (consumeDelim_shorter h3).suffix
+            · cases h
+            · cases h
+          · cases h
+          · cases h
+        · exact hex h
+      · exact hex h
+    · split at h
+      · split at h
+        · split at h
+          · rename_i e2 r2 h2
+            split at h
+            · rename_i t3 r3 h3
+              split at h
+              · cases h
+                exact (s1.trans_suffix (Suffix.cons _ (pExpression_shorter h2).suffix).suffix).trans_suffix
+                  (consumeDelim_shorter h3).suffix
+              · cases h
+            · cases h
+            · cases h
+          · cases h
+          · cases h
+        · exact hex h
+      · exact hex h
+    · exact hex h
+  · cases h
+  · cases h
+
+/-- a statement consumes at least one token -/
+theorem pStatement_shorter {f : Nat} {ts : List (Tok S)} {s r}
+    (h : pStatement f ts = .ok s r) : Shorter ts r := by
+  unfold pStatement at h
+  split at h
+  · split at h
+    · exact Suffix.cons _ (pDelete_shorter h).suffix
+    · split at h
+      · split at h
+        · rename_i t2 r2 h2
+          cases h
+          exact Suffix.cons _ (consumeDelim_shorter h2).suffix
+        · cases h
+        · cases h
+      · exact pStatementExpr_shorter h
+  · exact pStatementExpr_shorter h
+
+
+/-! ## The statement loop and `parse` -/
+
+/-- one unit of loop fuel per token and `10 + 13 * tokens` expression fuel are enough -/
+theorem parseLoop_adequate {inner : Nat} :
+    ∀ (outer : Nat) (ts : List (Tok S)), ts.length ≤ outer → 10 + 13 * ts.length ≤ inner →
+      parseLoop inner outer ts ≠ .fuel := by
+  intro outer
+  induction outer with
+  | zero =>
+    intro ts ho _
+    cases ts with
+    | nil => simp [parseLoop_nil]
+    | cons t r => simp at ho
+  | succ f ih =>
+    intro ts ho hi
+    cases ts with
+    | nil => simp [parseLoop_nil]
+    | cons t r =>
+      rw [List.length_cons] at ho hi
+      rw [parseLoop_succ_cons]
+      split
+      · exact ih r (by omega) (by omega)
+      · cases hq : pStatement inner (t :: r) with
+        | fuel => exact absurd hq (pStatement_adequate (by rw [List.length_cons]; omega))
+        | err e1 => simp
+        | ok s rest =>
+          have hlt := (pStatement_shorter hq).length_lt
+          rw [List.length_cons] at hlt
+          have hne := ih rest (by omega) (by omega)
+          simp only
+          cases hr : parseLoop inner f rest with
+          | fuel => exact absurd hr hne
+          | err e2 => simp
+          | ok ss => simp
+
+theorem parseFuel_ge (n : Nat) : 10 + 13 * n ≤ parseFuel n := by
+  unfold parseFuel; omega
+
+/-- the fuel `parse` supplies never runs out -/
+theorem parse_ne_fuel (ts : List (Tok S)) : parse ts ≠ .fuel :=
+  parseLoop_adequate (ts.length + 1) ts (Nat.le_succ _) (parseFuel_ge _)
+
+/-- `parse` is the fuel-independent result: any adequate fuels give the same answer -/
+theorem parseLoop_eq_parse {inner outer : Nat} (ts : List (Tok S))
+    (hi : 10 + 13 * ts.length ≤ inner) (ho : ts.length ≤ outer) :
+    parseLoop inner outer ts = parse ts := by
+  have h1 : parseLoop inner outer ts ≠ .fuel := parseLoop_adequate outer ts ho hi
+  have h2 : parse ts ≠ .fuel := parse_ne_fuel ts
+  have e1 := parseLoop_mono (inner' := max inner (parseFuel ts.length))
+    (outer' := max outer (ts.length + 1)) h1 (Nat.le_max_left _ _) (Nat.le_max_left _ _)
+  have e2 := parseLoop_mono (inner' := max inner (parseFuel ts.length))
+    (outer' := max outer (ts.length + 1)) (inner := parseFuel ts.length) (outer := ts.length + 1)
+    (ts := ts) h2 (Nat.le_max_right _ _) (Nat.le_max_right _ _)
+  rw [← e1, e2]; rfl
 
 end Calc
